@@ -98,6 +98,22 @@ inline void run_tunnel(Tape &t, Mode mode, Run &R)
 			}
 		}
 	};
+	if (getenv("VERIF_TRACE")) {
+		auto prev2 = sim::W.on_send;
+		sim::W.on_send = [prev2, &c](const sim::Datagram &dg) {
+			if (prev2) prev2(dg);
+			refproto::Query q; refproto::Answer a;
+			if (dg.data.size() >= 3 && dg.data[0] == 0x10 && dg.data[1] == 0xd1) fprintf(stderr, "%10.6f inst%d RAW %zuB cmd=%02x\n", sim::W.now / 1e6, dg.from_inst, dg.data.size(), dg.data[3]);
+			else if (refproto::decode_query(dg.data, c.domain, q)) fprintf(stderr, "%10.6f inst%d Q id=%5u %.30s%s\n", sim::W.now / 1e6, dg.from_inst, q.id, q.data.c_str(), q.data.size() > 30 ? "..." : "");
+			else if (refproto::decode_answer(dg.data, a)) { refproto::DownHdr h; bool hh = refproto::down_header(a.payload, h);
+				fprintf(stderr, "%10.6f inst%d A id=%5u %.12s len=%zu %s", sim::W.now / 1e6, dg.from_inst, a.id, a.qname.c_str(), a.payload.size(), "");
+				if (hh) fprintf(stderr, "[upack %d/%d dn %d/%d last=%d]", h.up_seq, h.up_frag, h.dn_seq, h.dn_frag, h.last);
+				fprintf(stderr, " %s\n", hz::hexs(a.payload, 12).c_str()); }
+			else fprintf(stderr, "%10.6f inst%d ?? %zuB (%s)\n", sim::W.now / 1e6, dg.from_inst, dg.data.size(), a.err.c_str());
+		};
+		auto pw = sim::W.on_tun_write; sim::W.on_tun_write = [pw](sim::Instance *i, const Bytes &b) { if (pw) pw(i, b); fprintf(stderr, "%10.6f inst%d TUNWRITE %zuB\n", sim::W.now / 1e6, i->idx, b.size()); };
+		auto pr = sim::W.on_tun_read; sim::W.on_tun_read = [pr](sim::Instance *i, const Bytes &b) { if (pr) pr(i, b); fprintf(stderr, "%10.6f inst%d TUNREAD %zuB\n", sim::W.now / 1e6, i->idx, b.size()); };
+	}
 	R.up = s.wait_all(150);
 	R.render = c.describe();
 	if (!R.up) {
@@ -146,6 +162,13 @@ inline void run_tunnel(Tape &t, Mode mode, Run &R)
 		Bytes dst = o.dst < 0 ? sip : (o.dst == 9 ? Bytes{sip[0], sip[1], sip[2], (uint8_t)(sip[3] ^ 0x80)} : cip[o.dst]);
 		Bytes src = side < 0 ? sip : cip[side];
 		size_t maxbody = t.chance(1, 8) ? 3800 : 1400;
+		if (mode == CLEAN) {
+			// (a) judges exactly-once delivery; an oversize packet is self-inflicted trouble (the sender retransmits
+			// an unacknowledgeable fragment for seconds and by design drops tun packets meanwhile), so clean-path
+			// runs only offer packets that fit the 16-fragment limit with margin
+			int cap = c.raw_mode ? 3000 : (side < 0 ? dncap : (o.dst < 0 ? upcap : std::min(upcap, dncap)));
+			maxbody = (size_t)std::max(0, std::min(1400, 12 * cap - 40));
+		}
 		o.pkt = scn::gen_packet(t, dst, src, ident++, maxbody);
 		size_t z = refproto::zcompress(o.pkt).size();
 		bool fits_up = (int)z <= 12 * upcap, fits_dn = (int)z <= 12 * dncap;
@@ -185,14 +208,19 @@ inline void run_tunnel(Tape &t, Mode mode, Run &R)
 	}
 	R.fn.active = false;
 	if (mode == FAULTY) sim::W.run_for(8000000);     // drain on a clean network so late deliveries are also checked
-	// ---- RECOVER: settle, then fresh packets both ways
+	// ---- RECOVER: settle, then fresh packets both ways.  Both ends only resynchronise their 3-bit packet
+	// sequence numbers through new traffic (a number inside the receiver's window of the last four is taken for
+	// a repeat and dropped), so the first packets after an outage may legitimately be lost; what C02 promises is
+	// that delivery resumes: 12 packets are offered each way, the last 4 of each direction are judged.
 	if (mode == RECOVER) {
 		sim::W.run_for(15000000);
-		for (int i = 0; i < 6; i++) {
+		for (int i = 0; i < 24; i++) {
 			Offer o; o.side = (i & 1) ? -1 : 0; o.dst = (i & 1) ? 0 : -1; o.at = sim::W.now;
-			Bytes body(40 + 17 * i); for (size_t k = 0; k < body.size(); k++) body[k] = (uint8_t)(k * 13 + i);
+			int cap = c.raw_mode ? 3000 : ((i & 1) ? dncap : upcap);
+			size_t blen = (size_t)std::max(1, std::min(40 + 7 * i, 12 * cap - 40));
+			Bytes body(blen); for (size_t k = 0; k < body.size(); k++) body[k] = (uint8_t)(k * 13 + i);
 			o.pkt = scn::tun_packet(o.dst < 0 ? sip : cip[0], o.side < 0 ? sip : cip[0], body, (uint16_t)(60000 + i));
-			o.judged = true;
+			o.judged = i >= 16;
 			R.offers.push_back(o);
 			sim::W.offer_tun(o.side < 0 ? s.srv : s.cli[0], o.pkt);
 			sim::W.run_for(1000000);
@@ -231,7 +259,7 @@ inline void run_tunnel(Tape &t, Mode mode, Run &R)
 			for (auto &o : R.offers) {
 				bool mine = dir == 0 ? (o.side == 0 && o.dst < 0) : (o.side < 0 && o.dst == 0);
 				if (!mine || !o.judged) continue;
-				bool suffix = mode == RECOVER && (o.pkt.size() >= 10 && ((o.pkt[8] << 8) | o.pkt[9]) >= 60000);
+				bool suffix = mode == RECOVER && (o.pkt.size() >= 10 && ((o.pkt[8] << 8) | o.pkt[9]) >= 60016);
 				if (mode == RECOVER && !suffix) continue;
 				if (!o.accepted) {
 					if (mode == RECOVER) R.v.fail("C02", "C02:not-accepted", fmt("after recovery a packet offered on the %s tun was never read", dir == 0 ? "client" : "server"));
